@@ -62,7 +62,7 @@ def cases(tier, seed):
             c = dict(row)
             c.update(kind='hterm_multi', tier=tier, id=f'multi-{rep}-{i}', seed=hash_seed(seed, 'C07', 'multi', rep, i))
             out.append(c)
-        for i, row in enumerate(cat.covering({'fam': FERMI + [1, 2], 'template': ['hopping', 'hopping_matrix', 'density', 'nested', 'minus', 'map_str'], 'N': [2, 3, 4]}, seed=seed * 7 + rep, strength=2)):
+        for i, row in enumerate(cat.covering({'fam': FERMI + [1, 2], 'template': ['hopping', 'hopping_matrix', 'density', 'nested', 'minus', 'map_str', 'op_bracket'], 'N': [2, 3, 4]}, seed=seed * 7 + rep, strength=2)):
             c = dict(row)
             c.update(kind='latex', tier=tier, id=f'latex-{rep}-{i}', seed=hash_seed(seed, 'C07', 'latex', rep, i))
             out.append(c)
@@ -478,6 +478,15 @@ def k_latex(ctx, spec):
         par = {'t': t, 'mu': mu, 'NN': NN}
         onej = 1j if ctx.mode == 'float' else _num(ctx, 1j)
         ref = sum(_matmul(E(A, j), E(B, k)) * (-t) for j, k in NN) + sum(_matmul(E(B, k), E(A, j)) * (mu * onej) for j, k in NN)
+    elif template == 'op_bracket':
+        # an operator factor multiplying a (longer) bracket that contains operators, on either side, incl. same-site factors: the written order
+        # of the factors is the operator order
+        a_, b_, c_ = 0, min(1, N - 1), N - 1
+        s = rf"\sum_{{ja,jb,jc \in trip}} t {A}_{{ja}} ({B}_{{jb}} + {B}_{{jc}}) + \sum_{{ja,jb,jc \in trip}} mu ({A}_{{jb}} + {A}_{{jc}} + {A}_{{ja}}) {B}_{{ja}} + \sum_{{ja,jb,jc \in trip}} {B}_{{jb}} ({A}_{{jb}} + {A}_{{jc}} + {A}_{{ja}})"
+        par = {'t': t, 'mu': mu, 'trip': [(a_, b_, c_)]}
+        ref = (_matmul(E(A, a_), E(B, b_)) + _matmul(E(A, a_), E(B, c_))) * t \
+            + (_matmul(E(A, b_), E(B, a_)) + _matmul(E(A, c_), E(B, a_)) + _matmul(E(A, a_), E(B, a_))) * mu \
+            + (_matmul(E(B, b_), E(A, b_)) + _matmul(E(B, b_), E(A, c_)) + _matmul(E(B, b_), E(A, a_)))
     else:   # custom site labels (strings / tuples) through map
         labels = [str(i) for i in range(N)] if rng.random() < 0.5 else [(str(i), 'A') for i in range(N)]
         emap = {l: i for i, l in enumerate(labels)}
@@ -621,20 +630,35 @@ def k_measure(ctx, spec):
         if not done:
             ctx.skip('no admissible pair of charges')
         return out
-    # nsite
+    # nsite: a random tuple, and (fermions) tuples in which a site repeats NON-adjacently with odd operators in between: (a, b, a), (a, b, a, b)
+    fss = _fss(cfg)
+    odd = [k_ for k_ in keys if any(fss) and any(names[k_].n[c] % 2 for c in range(len(fss)) if fss[c])]
+    trials = []
     k = rng.choice([1, 2, 3, 4])
-    opn = [rng.choice(keys) for _ in range(k)]
-    pos = [rng.randrange(N) for _ in range(k)]
-    operators = [names[x] for x in opn]
-    tot = tuple(cfg.sym.add_charges(*[x.n for x in operators])) if cfg.sym.NSYM else ()
-    bra, ket = _states(ctx, rng, ops, N, tot, spec['dtype'])
-    Bd, Kd = dense_chain(bra, ph), dense_chain(ket, ph)
-    res = mps.measure_nsite(bra, *operators, ket=ket, sites=pos)
-    ctx.eq([res], [_expect(Bd, jw.product(operators, pos), Kd)], f'measure_nsite({opn} at {pos})')
-    # the same through generate_mpo + measure_mpo
-    H = mps.generate_mpo(mps.product_mpo(ops.I(), N), [mps.Hterm(1.0, tuple(pos), tuple(operators))])
-    if all(H[n].size > 0 for n in range(N)):      # (an identically vanishing product gives an MPO without blocks, which Env cannot take)
-        ctx.eq([mps.measure_mpo(bra, H, ket)], [res], 'measure_mpo(generate_mpo(term)) == measure_nsite')
+    trials.append(([rng.choice(keys) for _ in range(k)], [rng.randrange(N) for _ in range(k)]))
+    if odd and N >= 2:
+        a_, b_ = rng.sample(range(N), 2)
+        trials.append(([rng.choice(odd) for _ in range(3)], [a_, b_, a_]))
+        trials.append(([rng.choice(odd) for _ in range(4)], [a_, b_, a_, b_]))
+        trials.append(([rng.choice(odd), rng.choice(keys), rng.choice(odd), rng.choice(odd)], [a_, b_, b_, a_]))
+    done = 0
+    for it, (opn, pos) in enumerate(trials):
+        operators = [names[x] for x in opn]
+        tot = tuple(cfg.sym.add_charges(*[x.n for x in operators])) if cfg.sym.NSYM else ()
+        try:
+            bra, ket = _states(ctx, rng, ops, N, tot, spec['dtype'], soft=True, tag=f'n{it}')
+        except _NoStates:
+            continue
+        done += 1
+        Bd, Kd = dense_chain(bra, ph), dense_chain(ket, ph)
+        res = mps.measure_nsite(bra, *operators, ket=ket, sites=pos)
+        ctx.eq([res], [_expect(Bd, jw.product(operators, pos), Kd)], f'measure_nsite({opn} at {pos})')
+        # the same through generate_mpo + measure_mpo
+        H = mps.generate_mpo(mps.product_mpo(ops.I(), N), [mps.Hterm(1.0, tuple(pos), tuple(operators))])
+        if all(H[n].size > 0 for n in range(N)):      # (an identically vanishing product gives an MPO without blocks, which Env cannot take)
+            ctx.eq([mps.measure_mpo(bra, H, ket)], [res], 'measure_mpo(generate_mpo(term)) == measure_nsite')
+    if not done:
+        ctx.skip('no admissible pair of charges')
     return {'fam': fam, 'sym': symn, 'N': N, 'ops': opn, 'pos': pos}
 
 
